@@ -16,7 +16,14 @@ RULE = ('E4 fault enumerator (same spaces as C09: single-byte corruptions, '
         '256 + 16*len(input) steps. Memory: tracemalloc peak <= 1 MiB '
         '+ 1024*len(input) on the rewrite/truncate/small-string cases. A '
         'case is one input; non-trivial = more than 12 steps executed (the '
-        'decoder went past the envelope checks).')
+        'decoder went past the envelope checks).'
+        ' '
+        'Also: scalar payloads around the limits of the Python types '
+        'behind every tag (every millisecond of the two seconds '
+        'around datetime.max, +-1001 around 15 other limits, decimal '
+        'scales, NaN payloads, subnormals, wide integers) and content '
+        'headers with 1..20000 chained flag words and 0..64 KiB of '
+        'property data, under the same step and memory budgets.')
 BOUNDS = {'quick': {'step_budget': '256 + 16*len', 'memory_budget':
                     '256 KiB + 64*len (length/tag rewrites, truncations, shapes, large values); retained <= 1 MiB'},
           'thorough': {'step_budget': '256 + 16*len', 'memory_budget':
